@@ -412,7 +412,11 @@ func init() {
 			if _, inObject := vmodel.Kinds[0].FieldByTerm(f.Term); inObject && k.Name != "Object" && k.Name != "Activity" {
 				continue
 			}
-			nilHosts = append(nilHosts, nilHost{fmt.Sprintf("%s.%s only", k.Name, f.Term), func(it vocab.Item) vocab.Item {
+			suffix := " only"
+			if f.Type == vmodel.IcT {
+				suffix = " only (list)" // a list with a nil member is not itself nil: its equality with the unset list is not judged
+			}
+			nilHosts = append(nilHosts, nilHost{fmt.Sprintf("%s.%s%s", k.Name, f.Term, suffix), func(it vocab.Item) vocab.Item {
 				p := reflect.ValueOf(k.New())
 				p.Elem().FieldByName("ID").Set(reflect.ValueOf(vocab.IRI("https://example.com/h")))
 				p.Elem().FieldByName("Type").Set(reflect.ValueOf(vocab.ActivityVocabularyType(k.SpecificType())))
@@ -715,6 +719,21 @@ func init() {
 					// signature: entry = operation on host position (the Guard names it)
 					c.Guard(op.Name+" on "+host.Name, func() { op.Run(hv) })
 					c.Eval(1)
+					if op.Name == "ItemsEqual(v,copy)" && strings.HasSuffix(host.Name, " only") {
+						// "equality treats it as nil": the value holding the nil-like in one property equals the same value with
+						// that property unset, in both orders
+						var with, without vocab.Item
+						if !c.Guard("build "+host.Name, func() { with = host.Build(n.It); without = withoutNilLikes(host.Build(n.It)) }) {
+							var ab, ba bool
+							if !c.Guard("ItemsEqual(v,without) on "+host.Name, func() { ab = vocab.ItemsEqual(with, without); ba = vocab.ItemsEqual(without, with) }) {
+								c.Count("nil-equals-unset-comparisons", 2)
+								if !ab || !ba {
+									c.Fail(fmt.Sprintf("nil|ItemsEqual|%s|nil-not-equal-to-unset", strings.SplitN(host.Name, ".", 2)[0]), fmt.Sprintf("%s holding %s: ItemsEqual(with, unset) = %v, ItemsEqual(unset, with) = %v; a nil-like property is nothing", host.Name, n.Name, ab, ba),
+										map[string]any{"host": host.Name, "nil": n.Name})
+								}
+							}
+						}
+					}
 					if op.Name == "ItemsEqual(v,copy)" {
 						// and against the same value holding a real item where this one holds the nil-like, in both orders
 						var filled vocab.Item
